@@ -142,7 +142,14 @@ func parserString(p path.Parser) string {
 func (g *gen) newBlob(data []byte, state int) *blob {
 	dg := g.df.NewGenerator(int64(len(data)))
 	dg.Write(data)
-	b := &blob{data: data, digest: dg.Sum(), state: state}
+	sum := dg.Sum()
+	for _, b := range g.blobs {
+		// Equal contents are one blob (small generated blobs collide).
+		if b.digest == sum {
+			return b
+		}
+	}
+	b := &blob{data: data, digest: sum, state: state}
 	g.blobs = append(g.blobs, b)
 	return b
 }
